@@ -259,6 +259,12 @@ theorem validateSrc_rejects_with_valueError (ey es eb : Bool) (d : MitData) (h :
   · exact absurd h' h
   · exact h'
 
+/-- BRIDGE (restated here so that it is an audited obligation of C20; proof in Lemmas/Validation.lean): the check list lifted
+    from the working tree, run with first-match semantics, IS the hand-written model `validateWith`, for all flags and all
+    descriptors — so every theorem of this file about `validate` / `validateWith` is a theorem about the source text -/
+theorem lifted_validator_is_model (ey es eb : Bool) (d : MitData) : validateSrc ey es eb d = validateWith ey es eb d :=
+  validateSrc_eq_validateWith ey es eb d
+
 /-- the lifted validator with `enforce_binary_labels` as a parameter is the hand-written `validate` -/
 theorem validateSrc_default (e : Bool) (d : MitData) : validateSrc true true e d = validate e d := by
   rw [validateSrc_eq_validateWith, validateWith_default]
